@@ -75,6 +75,9 @@ type Exec struct {
 	gobReg       map[*Term]gobEntry
 	world        *World
 	symLoopBound int
+	jgetLog      [][2]*Term // (value, key) of every member lookup performed through the fastjson accessors
+	jdocRoot     *Term      // document whose members are described by jdocLookup
+	jdocLookup   func(name string) *Term
 	allocs       []AllocRec // make() calls whose size is not a constant
 	autoInv      bool // cut loops of symbolic trip count without a written invariant by the trivial invariant (safety proofs)
 	autoCuts     int
